@@ -204,8 +204,12 @@ def check_group_writing(ctx, rng):
         cfg["explicit_flow"] = type(flow_obj).__name__
         if rng.random() < .5:
             cfg["logical"] = 0
-    options = pj.make_options(cfg, flow=flow_obj)
     via = rng.choice(["frames", "file"])
+    if via == "file" and flow_obj is None and rng.random() < .3:
+        # the caller's options say delimited=False; grouped_stream_to_file decides how the frames reach the file.
+        # Whatever it does, the file must still hold one frame per non-empty group (a refusal would be fine too).
+        cfg["delimited"] = False
+    options = pj.make_options(cfg, flow=flow_obj)
     out = io.BytesIO()
     try:
         if integ == "generic":
@@ -224,12 +228,17 @@ def check_group_writing(ctx, rng):
         if not allst or not groups[0]:
             ctx.observe("group-writing-raised-on-empty-first-group")   # an empty first sink cannot tell its arity
             return
+        if not cfg["delimited"] and type(e).__name__ == "JellyConformanceError":
+            ctx.observe("group-writing-refused-for-non-delimited-options")
+            return
         ctx.violation({"clause": "group-writing-raised", "summary": f"{integ} logical {logical}: {type(e).__name__}: {e}",
                        "integration": integ, "logical": logical, "groups": T.to_json(groups), "cfg": cfg, "via": via})
         return
     data = out.getvalue()
     ctx.observe("group-sequences-written")
     ctx.observe(f"groups:{integ}:logical{logical}")
+    if not cfg["delimited"]:
+        ctx.observe("groups-written-with-delimited-false-options")
     w = judge_groups(integ, data, groups)
     nonempty = [g for g in groups if g]
     if w:
@@ -246,7 +255,11 @@ def judge_groups(integ: str, data: bytes, groups: list):
     try:
         frames = wire.dec_stream(data, True) if data else []
     except wire.WireError as e:
-        return {"clause": "written-bytes-malformed", "summary": str(e)}
+        # not length-prefixed: maybe one bare frame (fine for <= 1 non-empty group; the frame count below decides)
+        try:
+            frames = wire.dec_stream(data, False)
+        except wire.WireError:
+            return {"clause": "written-bytes-malformed", "summary": str(e)}
     ref = refdec.decode(frames)
     if ref.violation is not None:
         return {"clause": "written-bytes-invalid", "summary": str(ref.violation)}
